@@ -486,6 +486,18 @@ func (p *pair) injectMutant(step int, st *kernel.Step, zWire map[wallet.BackendI
 		if err != nil {
 			break
 		}
+		if kernel.Derive(uint64(st.Int("r")), "slow-decision")%3 == 0 {
+			// A's user takes longer over that update than any lock wait inside
+			// the client could be meant to last: the proposal has to wait for
+			// the parent all the same, however long the update stays in flight
+			p.mu.Lock()
+			if p.slowNext == nil {
+				p.slowNext = map[string]time.Duration{}
+			}
+			p.slowNext[A.Name] = 10500*time.Millisecond + s.Delay(fmt.Sprintf("stale-slow:%d", step), 0, 4*time.Second)
+			p.mu.Unlock()
+			s.Count("fault.slow_decision_on_inflight_update", 1)
+		}
 		p.wg.Add(1)
 		go func() {
 			defer p.wg.Done()
